@@ -167,6 +167,83 @@ Section Refresh.
       + cbn. repeat split; auto.
   Qed.
 
+  (** ** ... and the text in force for it stays, if the engine was in step
+      with the files *)
+
+  Definition lookup (i : N) (snap : list (N * bytes)) : option bytes :=
+    match find (fun e => fst e =? i) snap with Some e => Some (snd e) | None => None end.
+
+  Definition in_force (e : engine) (i : N) : option bytes * option bytes :=
+    (lookup i (e_block e), lookup i (e_allow e)).
+
+  Definition engine_consistent (st : rstate) : Prop :=
+    r_engine st = {| e_block := snapshot (r_block st) (r_files st);
+                     e_allow := snapshot (r_allow st) (r_files st) |}.
+
+  Lemma lookup_snapshot i fs : forall ls,
+    lookup i (snapshot ls fs)
+    = if existsb (fun l => (f_id l =? i) && f_enabled l) ls then fget i fs else None.
+  Proof.
+    unfold lookup. induction ls as [|l ls IH]; cbn [snapshot flat_map existsb]; auto.
+    fold (snapshot ls fs).
+    destruct (f_enabled l); [|rewrite andb_false_r; cbn [app orb]; exact IH].
+    rewrite andb_true_r.
+    destruct (fget (f_id l) fs) as [c|] eqn:G; cbn [app find fst snd].
+    - destruct (N.eqb_spec (f_id l) i) as [E|E]; cbn [orb]; [now rewrite <- E, G|exact IH].
+    - destruct (N.eqb_spec (f_id l) i) as [E|E]; cbn [orb]; [|exact IH].
+      rewrite IH, <- E, G. destruct (existsb (fun l0 => (f_id l0 =? f_id l) && f_enabled l0) ls); reflexivity.
+  Qed.
+
+  Lemma existsb_apply_upd i us ls :
+    existsb (fun l => (f_id l =? i) && f_enabled l) (map (apply_upd us) ls)
+    = existsb (fun l => (f_id l =? i) && f_enabled l) ls.
+  Proof.
+    induction ls as [|l ls IH]; cbn [map existsb]; auto. rewrite IH. f_equal.
+    unfold apply_upd. destruct (find _ us); reflexivity.
+  Qed.
+
+  Lemma refresh_array_enabled i ls force due oc fs :
+    let '(_, _, ls', _) := refresh_array ls force due oc fs in
+    existsb (fun l => (f_id l =? i) && f_enabled l) ls'
+    = existsb (fun l => (f_id l =? i) && f_enabled l) ls.
+  Proof.
+    unfold Refresh.refresh_array. destruct (filter _ ls) as [|t0 tu]; auto.
+    destruct (update_all (t0 :: tu) oc fs) as [us fs']. destruct (forallb u_err us); auto.
+    apply existsb_apply_upd.
+  Qed.
+
+  Theorem refresh_failed_list_in_force i b a force due oc st :
+    engine_consistent st -> fails (oc i) ->
+    in_force (r_engine (refresh b a force due oc st)) i = in_force (r_engine st) i.
+  Proof.
+    intros Hc Hf. unfold Refresh.refresh.
+    assert (H1 : let '(_, _, bl, fs1) :=
+                   (if b then refresh_array (r_block st) force due oc (r_files st)
+                    else (0, false, r_block st, r_files st)) in
+                 fget i fs1 = fget i (r_files st) /\
+                 existsb (fun l => (f_id l =? i) && f_enabled l) bl
+                 = existsb (fun l => (f_id l =? i) && f_enabled l) (r_block st)).
+    { destruct b; [|auto].
+      pose proof (refresh_array_failed_list i (r_block st) force due oc (r_files st) Hf) as A.
+      pose proof (refresh_array_enabled i (r_block st) force due oc (r_files st)) as B.
+      destruct (refresh_array (r_block st) force due oc (r_files st)) as [[[? ?] ?] ?]. tauto. }
+    destruct (if b then _ else _) as [[[n1 e1] bl] fs1]. destruct H1 as [F1 X1].
+    assert (H2 : let '(_, _, al, fs2) :=
+                   (if a then refresh_array (r_allow st) force due oc fs1
+                    else (0, false, r_allow st, fs1)) in
+                 fget i fs2 = fget i fs1 /\
+                 existsb (fun l => (f_id l =? i) && f_enabled l) al
+                 = existsb (fun l => (f_id l =? i) && f_enabled l) (r_allow st)).
+    { destruct a; [|auto].
+      pose proof (refresh_array_failed_list i (r_allow st) force due oc fs1 Hf) as A.
+      pose proof (refresh_array_enabled i (r_allow st) force due oc fs1) as B.
+      destruct (refresh_array (r_allow st) force due oc fs1) as [[[? ?] ?] ?]. tauto. }
+    destruct (if a then _ else _) as [[[n2 e2] al] fs2]. destruct H2 as [F2 X2].
+    cbn [r_engine]. destruct (e1 || e2); auto. destruct (n1 + n2 =? 0); auto.
+    rewrite Hc. unfold in_force. cbn [e_block e_allow].
+    rewrite !lookup_snapshot, X1, X2, F2, F1. reflexivity.
+  Qed.
+
   (** ** Every attempted list fails: nothing at all changes *)
 
   Lemma forallb_err_failed ls : forallb u_err (map failed_upd ls) = true.
